@@ -256,7 +256,7 @@ impl Array8 {
     pub fn deserialize(
         mut cursor: SketchSlice,
         lg_config_k: u8,
-        compact: bool,
+        _compact: bool,
         ooo: bool,
     ) -> Result<Self, Error> {
         let k = 1usize << lg_config_k;
@@ -278,13 +278,10 @@ impl Array8 {
 
         // Read byte array from offset HLL_BYTE_ARR_START
         let mut data = vec![0u8; k];
-        if !compact {
-            cursor
-                .read_exact(&mut data)
-                .map_err(insufficient_data("data"))?;
-        } else {
-            cursor.advance(k as u64);
-        }
+        // the register array is present in compact images too (the flag only changes the Hll4 aux layout)
+        cursor
+            .read_exact(&mut data)
+            .map_err(insufficient_data("data"))?;
 
         // Create estimator and restore state
         let mut estimator = HipEstimator::new(lg_config_k);
